@@ -25,6 +25,9 @@ for mp in sorted(glob.glob(HERE + "/seeded/C*/meta.json")) + sorted(glob.glob(HE
     first_caught = any(r.get("exit") for r in first.values())
     last_caught = [c for c, r in last.items() if r.get("exit")]
     concrete = any(r.get("exit") and r.get("violations", 0) > r.get("no_input", 0) for r in last.values())
+    if m.get("out_of_scope"):
+        rows.append((os.path.relpath(d, HERE + "/seeded"), own, ", ".join(files), "OUT OF SCOPE: " + m["out_of_scope"][:140], "-", "-", "-"))
+        continue
     rows.append((os.path.relpath(d, HERE + "/seeded"), own, ", ".join(files), (m.get("needs") or needs_from_readme(d))[:150].replace("|", "/"),
                  "yes" if first_caught else "no", ", ".join(sorted(set(m.get("caught_by", [])))) or "-",
                  "yes" if concrete else ("proof/cert only" if last_caught else "-")))
